@@ -9,7 +9,7 @@ Oracle : 15-line reference join over the branch traces: iterate source events, w
          tuple(latest) when every branch has produced since the last tuple; combine_latest stores and
          emits tuple(latest) with None for branches that have not produced in this lifetime.
 """
-from ..common import Check, Outcome, bootstrap, norm
+from ..common import Check, Outcome, bootstrap, norm, with_prelude, prelude_tags, shrink_prelude, PRELUDE_TAGS
 from .. import gen, progs, model
 from ..muxmon import lifetimes
 
@@ -48,10 +48,13 @@ class C08(Check):
                    'each mode is compared with branches run in the SAME mode, so early completion after take/first on plain observables is part of the reference',
                    'branch programs whose standalone run errors (mean(reduce) on an empty key ...) are discarded']
     ANCHORS = ['rxsci/operators/tee_map.py', 'rxsci/mux/muxconnectable.py']
-    REQUIRED_TAGS = ['plain', 'mux', 'group', 'roll', 'roll_eq', 'split', 'zip', 'merge', 'combine_latest', 'branches=2', 'branches=3', 'branches=4', 'nested-tee', 'over-256-keys']
+    REQUIRED_TAGS = ['plain', 'mux', 'group', 'roll', 'roll_eq', 'split', 'zip', 'merge', 'combine_latest', 'branches=2', 'branches=3', 'branches=4', 'nested-tee', 'over-256-keys', 'after-aborted-subscriptions', 'prelude:dispose', 'prelude:peek']
     REQUIRED_OBSERVED = ['tuples_compared', 'branch_traces_recorded', 'lifetimes_checked']
 
     def generate(self, rng, tier, shard, nshards):
+        return with_prelude(self._generate(rng, tier, shard, nshards), rng, size=lambda c: len(c['items']))
+
+    def _generate(self, rng, tier, shard, nshards):
         n = 3800 if tier == 'quick' else 10 ** 7
         names = list(CTX)
         for k in range(n):
@@ -84,6 +87,8 @@ class C08(Check):
         branches, join, ctx, items = case['branches'], case['join'], case['ctx'], case['items']
         tee = ['tee_map', join, branches]
         out.tags += [ctx, join, 'branches=%d' % len(branches)]
+        if case.get('prelude') and progs.usable_prelude([tee], case['prelude']):
+            prelude_tags(dict(case, prelude=progs.usable_prelude([tee], case['prelude'])), out)
         if any(n[0] == 'tee_map' for b in branches for _, n in progs.walk(b)):
             out.tags.append('nested-tee')
         if ctx in ('plain', 'mux'):
@@ -92,7 +97,7 @@ class C08(Check):
             if want is None:
                 out.discarded = 'branch errors standalone'
                 return out
-            got = progs.run_driven([tee], items, ctx)
+            got = progs.run_driven([tee], items, ctx, prelude=case.get('prelude'))
             if got.err is not None or not got.done:
                 return out.fail('tee-errored-where-its-branches-do-not', error=repr(got.err), done=got.done, ctx=ctx)
             out.observed['lifetimes_checked'] += 1
@@ -101,7 +106,7 @@ class C08(Check):
         node = list(case['ctx_node'])
         node[-1] = [tee]
         head, tail = [], []
-        snap = progs.run_mux([node], items, taps={(0,): (head, tail)})
+        snap = progs.run_mux([node], items, taps={(0,): (head, tail)}, prelude=case.get('prelude'))
         hl, odd1 = lifetimes(head)
         tl, odd2 = lifetimes(tail)
         if len(hl) > 256:
@@ -153,6 +158,7 @@ class C08(Check):
         return out
 
     def shrink(self, case):
+        yield from shrink_prelude(case)
         from .c11 import shrink_prog
         items = case['items']
         for k in range(len(items)):
